@@ -86,7 +86,7 @@ RefArchive gen_ref(Tape& t) {
 	return b;
 }
 
-void read_case(const RefArchive& a0, Stats& st, bool sample) {
+void read_case(const RefArchive& a0, Stats& st, bool sample, Tape* tp = nullptr, const unsigned* fixedOps = nullptr) {
 	RefArchive a = a0;
 	std::vector<refvol::Extent> ext;
 	// in a quarter of the archives with unused slots their stale block offset names a real block (the first member's)
@@ -134,6 +134,14 @@ void read_case(const RefArchive& a0, Stats& st, bool sample) {
 		V_CHECK(guarded([&] { v->OpenStream(bad); }) == Out::Err, "OpenStream(" << bad << ") accepted with " << a.ms.size() << " members (+" << a.o.unusedSlots << " unused slots)");
 		V_CHECK(guarded([&] { v->ExtractFile(bad, "%o/x.bin"); }) == Out::Err, "ExtractFile(" << bad << ") accepted with " << a.ms.size() << " members (+" << a.o.unusedSlots << " unused slots)");
 	}
+	// a session of calls in tape-chosen (or enumerated) order on the same object: streams and extractions of the same members again, refused calls between them
+	if (!a.ms.empty() && (tp || fixedOps)) {
+		std::vector<std::string> names; std::vector<std::vector<uint8_t>> streams; std::vector<char> can;
+		for (auto& m : a.ms) { names.push_back(m.name); streams.push_back(m.payload); can.push_back(m.comp == refvol::CompUncompressed || m.comp == refvol::CompLZH); }
+		Session<VolFile> se{*v, names, streams, [&](size_t i, const std::string& p) { std::vector<uint8_t> ex; read_file(p, ex); V_CHECK(ex == a.expanded[i], "session: extraction of member " << i << (a.ms[i].comp == refvol::CompLZH ? " (LZH)" : "") << " wrote " << ex.size() << " bytes, expected " << a.expanded[i].size() << " - or other bytes"); }, can, {}, {}};
+		if (fixedOps) { typedef Session<VolFile> S; const unsigned ops[] = {S::ExtractGood, S::ExtractOntoDirectory, S::StreamWhole, S::StreamHold}; for (int k = 0; k < 3; ++k) se.step(ops[fixedOps[k] / 3], fixedOps[k] % 3, unsigned(k)); for (size_t i = 0; i < names.size(); ++i) { se.step(S::StreamWhole, i, 0); se.step(S::ExtractGood, i, 0); } se.finish(); }
+		else se.run(*tp, st, unsigned(tp->below(13)));
+	}
 	if (a.o.unusedSlots) st.cls("read:unused_trailing_slots");
 	if (a.o.namePadWords) st.cls("read:extra_name_padding");
 	bool lzh = false; for (auto& m : a.ms) if (m.comp == refvol::CompLZH) lzh = true;
@@ -147,7 +155,7 @@ void run_case(Tape& t, Stats& st) {
 	root();
 	if (t.below(16) == 0) { clash_case(t, st, gen_files(t, 6)); return; }
 	if (t.below(3) == 0) { auto fs = gen_files(t, g_thorough ? 30 : 10); if (st.want_sample()) st.sample("{\"library_written\":" + render(fs, "%o/w.vol") + "}"); written_case(t, st, fs); }
-	else read_case(gen_ref(t), st, true);
+	else { RefArchive ra = gen_ref(t); read_case(ra, st, true, &t); }
 }
 
 void run_sweep(Stats& st) {
@@ -181,6 +189,20 @@ void run_sweep(Stats& st) {
 		}
 		a.o.unusedSlots = unused; a.o.unusedFill = 0xDEADBEEF; a.o.indexLenExtra = extra; a.o.namePadWords = pad;
 		read_case(a, st, false);
+	}
+	// every three-call session over {extract, extract onto a directory, stream, stream kept open} x three members (plain 5 bytes, LZH, plain 8 bytes
+	// - a multiple of four, so the next block follows without padding) on one object, then a closing pass over all members
+	for (unsigned x = 0; x < 12; ++x) for (unsigned y = 0; y < 12; ++y) for (unsigned z = 0; z < 12; ++z) {
+		if (!sw("ref_session3", x, y, z)) continue;
+		RefArchive a;
+		for (unsigned i = 0; i < 3; ++i) {
+			refvol::Member m; m.name = std::string("s") + char('a' + i) + (i % 2 ? ".Bin" : "_y"); std::vector<uint8_t> plain;
+			if (i == 1) { std::vector<reflzh::Token> toks; for (unsigned k = 0; k < 12; ++k) toks.push_back({false, uint8_t('k' + k % 5), 0, 0}); toks.push_back({true, 0, 9, 40}); m.payload = reflzh::encode(toks, plain); plain = reflzh::decode(m.payload).out; m.comp = refvol::CompLZH; m.sizeField = uint32_t(plain.size()); }
+			else { m.payload.assign(i ? 5 : 8, uint8_t(0x30 + i)); m.payload[0] = uint8_t(i + 1); m.sizeField = uint32_t(m.payload.size()); plain = m.payload; }
+			a.ms.push_back(m); a.expanded.push_back(plain);
+		}
+		const unsigned ops[3] = {x, y, z};
+		read_case(a, st, false, nullptr, ops);
 	}
 	st.exhaustive = true;
 }
